@@ -346,11 +346,48 @@ def part_components(chk):
            not bad_rr, "rtc", "exhaustive_finite", detail=f"{len(bad_rr)}/{n}: {bad_rr[:3]}")
     chk.ob("component/enable_readers/copies exactly the named entries into the reader, NameError at the first unknown name", not bad_er,
            "rtc", "exhaustive_finite", detail=f"{len(bad_er)}/{n}: {bad_er[:3]}")
+    # ---- HyReader(use_current_readers=True): a copy of the calling module's table -------------------------------------------
+    m = fresh_module("hv_c37_ucr")
+    try:
+        hy.eval(read_many('(defreader a "T" "T") (setv r-cur (hy.HyReader :use-current-readers True)) (setv r-new (hy.HyReader))'), module=m)
+        cur, new = table_of(m.r_cur.reader_macros, BUILTIN_READERS), table_of(m.r_new.reader_macros, BUILTIN_READERS)
+        m.r_cur.reader_macros["zz"] = lambda r, k: None
+        ok = cur == {"a": "T"} and new == {} and "zz" not in m._hy_reader_macros and m.r_cur.reader_macros is not m._hy_reader_macros
+        det = f"use_current_readers: {cur}; default: {new}; module table after changing the reader: {sorted(m._hy_reader_macros)}"
+    except Exception as e:
+        ok, det = False, f"{type(e).__name__}: {e}"
+    finally:
+        sys.modules.pop("hv_c37_ucr", None)
+    chk.case(("use_current_readers",))
+    chk.ob("component/HyReader.__init__/use_current_readers copies the calling module's reader macros, the default takes none", ok, "rtc",
+           "exhaustive_finite", detail=det)
+    # ---- a REPL started on a module that holds reader macros knows exactly those --------------------------------------------
+    m = fresh_module("hv_c37_replmod")
+    saved_io, saved_hooks = (sys.stdout, sys.stderr), (sys.displayhook, sys.excepthook)
+    try:
+        hy.eval(read_many('(defreader a "T" "T") (defreader n "N" None)'), module=m)
+        sys.stdout = sys.stderr = io.StringIO()
+        repl = hy.REPL(locals=m.__dict__)
+        got = table_of(repl.compile.compiler.reader.reader_macros, BUILTIN_READERS)
+        other = hy.REPL(locals={"__name__": "hv_c37_replmod2"})
+        got2 = table_of(other.compile.compiler.reader.reader_macros, BUILTIN_READERS)
+        ok, det = got == {"a": "T", "n": "N"} and got2 == {} and repl.compile.compiler.reader is not other.compile.compiler.reader, f"{got}; a REPL on another module: {got2}"
+    except Exception as e:
+        ok, det = False, f"{type(e).__name__}: {e}"
+    finally:
+        sys.stdout, sys.stderr = saved_io
+        sys.displayhook, sys.excepthook = saved_hooks
+        sys.modules.pop("hv_c37_replmod", None)
+        sys.modules.pop("hv_c37_replmod2", None)
+    chk.case(("repl-start",))
+    chk.ob("component/REPL/a REPL starts with exactly the reader macros of its module, on a reader of its own", ok, "rtc", "exhaustive_finite", detail=det)
     # must-fail canary for the component level: "require_reader copies the whole source table whatever the names"
+    # (the wrong clause must get another verdict than the right one on the same observation: then a regression of the real
+    # function towards the wrong clause is a violation of the right clause above, not a void run)
     src, tgt = mkmod("hv_c37_src", src_table), mkmod("hv_c37_tgt")
     hmac.require_reader(src, tgt, ["a"])
     chk.canary("component: require_reader copies the whole table of the source module whatever names are given",
-               tgt._hy_reader_macros != src_table)
+               (tgt._hy_reader_macros == {"a": fa}) != (tgt._hy_reader_macros == src_table))
 
 
 # ======================================================================================================================
@@ -427,7 +464,7 @@ def build_m1(name):
     return m
 
 
-def observe_module_values(mod, prefix=("u", "p", "n")):
+def observe_module_values(mod, prefix=("u", "p", "n", "s")):
     return {k: v for k, v in vars(mod).items() if k[0] in prefix and k[1:].isdigit()}
 
 
@@ -532,6 +569,22 @@ def _eval_worker(rng_):
     for i in range(lo, hi):
         run_eval_session(_W["sessions"][i], v)
     return v.agg
+
+
+def _eval_worker_s(r):
+    return shallow(_eval_worker)(r)
+
+
+def _eval_random_worker_s(r):
+    return shallow(_eval_random_worker)(r)
+
+
+def _import_worker_s(r):
+    return shallow(_import_worker)(r)
+
+
+def _repl_worker_s(r):
+    return shallow(_repl_worker)(r)
 
 
 def _eval_random_worker(rng_):
@@ -748,7 +801,7 @@ def hy_c_jobs(chk, scratch, sessions):
         model = M.Model()
         out = model.run_stream(ops, 0, names, 0)
         text = M.stream_text(ops, names, 0)
-        tail = ("(print \"HV-C37\" (hy.repr (dfor [k v] (.items (globals)) :if (and (in (get k 0) \"upn\") (.isdigit (cut k 1 None))) k v)))\n"
+        tail = ("(print \"HV-C37\" (hy.repr (dfor [k v] (.items (globals)) :if (and (in (get k 0) \"upns\") (.isdigit (cut k 1 None))) k v)))\n"
                 "(print \"HV-C37-TABLE\" (hy.repr (dfor [k v] (.items _hy_reader_macros) k v.__doc__)))\n")
         jobs.append((sess, out, model, text, launcher + ["-c", text + tail], env, d))
     return jobs
@@ -794,6 +847,41 @@ def part_hy_c(chk, scratch, sessions):
 
 
 # ======================================================================================================================
+_BALLAST = []
+
+
+def _worker_init():
+    """Keep a sparse set of small objects alive in every worker, so that the allocator's arenas stay mapped between
+    sessions (without it every session maps and unmaps memory dozens of times, which dominates the run time)."""
+    objs = [(i,) for i in range(16 * 1024 * 1024 // 56)]
+    _BALLAST.append(objs[::500])
+
+
+def shallow(fn):
+    """Run a worker function in a fresh thread.  A forked pool worker inherits the deep call stack of the checker and
+    adds multiprocessing's own frames; CPython's frame stack is allocated in 16 KiB chunks that are unmapped as soon as
+    the stack falls below a chunk boundary, and hy's deeply recursive compiler then maps and unmaps a chunk thousands of
+    times per second (measured: 18 times slower at 50 extra frames).  A new thread starts with an empty frame stack."""
+    def run_in_thread(arg):
+        box = []
+
+        def target():
+            try:
+                box.append((True, fn(arg)))
+            except BaseException as e:          # handed to the caller
+                box.append((False, e))
+        import threading
+        t = threading.Thread(target=target)
+        t.start()
+        t.join()
+        ok, val = box[0]
+        if not ok:
+            raise val
+        return val
+    run_in_thread.__name__ = fn.__name__ + "_shallow"
+    return run_in_thread
+
+
 def pool_map(pool, chk, fn, n):
     if n == 0:
         return []
@@ -833,43 +921,66 @@ def run(chk):
 
         # ---- the sessions (all prepared before the worker pool is forked) ------------------------------------------------
         full_len, red_len = (3, 4) if thorough else (2, 3)
-        dbl_len = 2 if thorough else 1
         exhaustive = list(sessions_single(M.ALPHABET, full_len))
         seen = set(map(session_key, exhaustive))
-        for s in sessions_single(M.REDUCED, red_len):
+        for s in sessions_single(M.REDUCED, red_len - 1):
             if session_key(s) not in seen:
                 seen.add(session_key(s))
                 exhaustive.append(s)
-        doubles = list(sessions_double(M.REDUCED, dbl_len)) + list(sessions_double(M.ALPHABET, 1))
+        longest = [((0, ops),) for ops in itertools.product(M.REDUCED, repeat=red_len)]
+        exhaustive += longest[::3] if thorough else longest          # thorough: every third stream of length 4
+        doubles = list(sessions_double(M.REDUCED, 1))
+        for a in M.ALPHABET:                                          # every op once as first and once as second stream
+            for b in M.REDUCED:
+                for rid in (1, 0):
+                    doubles += [((0, (a,)), (rid, (b,))), ((0, (b,)), (rid, (a,)))]
+        if thorough:
+            doubles += list(sessions_double(M.ALPHABET, 1))
+        # fixed two-stream sessions whose second stream (on a fresh reader) uses what the first stream defined
+        doubles += [((0, first), (1, second)) for first, second in (
+            ((("def", "b", "val"),), (("req", "*"), ("use", "b"))),
+            ((("def", "b", "none"),), (("req", "*"), ("top", "b"), ("use", "a"))),
+            ((("def", "a", "val"), ("def", "b", "wrap")), (("req", ("a",)), ("use", "a"), ("use", "b"))),
+            ((("def", "b", "val"),), (("use", "b"),)),
+            ((("def", "b", "val"),), (("req", ("a", "c")), ("use", "c"), ("use", "b"))),
+            ((("req", "*"),), (("use", "a"),)),
+            ((("req", ("a", "zz")),), (("req", "*"), ("use", "a"))),
+        )]
+        if thorough:                                                  # 1 + 2 and 2 + 1 ops
+            for a in M.REDUCED:
+                for b in itertools.product(M.REDUCED, repeat=2):
+                    for rid in (1, 0):
+                        doubles += [((0, (a,)), (rid, b)), ((0, b), (rid, (a,)))]
         dseen = set()
         doubles = [s for s in doubles if not (session_key(s) in dseen or dseen.add(session_key(s)))]
-        rand = random_sessions(rng, 3000 if thorough else 200, 10 if thorough else 8)
+        rand = random_sessions(rng, 1500 if thorough else 200, 10 if thorough else 8)
         rand1 = [s for s in rand if len(s) == 1]
         chk.bounds["op alphabet"] = [repr(op) for op in M.ALPHABET]
         chk.bounds["reduced alphabet"] = [repr(op) for op in M.REDUCED]
-        chk.bounds["single streams"] = f"all over the alphabet up to length {full_len}, all over the reduced alphabet up to length {red_len}: {len(exhaustive)}"
-        chk.bounds["two-stream sessions"] = (f"all pairs over the reduced alphabet with streams up to length {dbl_len} and all pairs of single ops over the "
-                                             f"alphabet, second stream on a fresh reader or on the same reader: {len(doubles)}")
+        chk.bounds["single streams"] = (f"all over the alphabet up to length {full_len}, all over the reduced alphabet up to length {red_len - 1}, "
+                                        f"{'every third' if thorough else 'all'} of length {red_len} over the reduced alphabet: {len(exhaustive)}")
+        chk.bounds["two-stream sessions"] = (f"all pairs of single ops (alphabet x reduced alphabet{', alphabet x alphabet, and all 1+2 and 2+1 op pairs over the reduced alphabet' if thorough else ''}), "
+                                             f"second stream on a fresh reader or on the same reader: {len(doubles)}")
         chk.bounds["random sessions"] = f"{len(rand)} sessions of 1-3 streams of 2-{10 if thorough else 8} ops"
         imp = list(sessions_single(M.ALPHABET, 1)) + list(sessions_single(M.REDUCED, 3 if thorough else 2)) + rand1[: (400 if thorough else 40)]
         if thorough:
             imp += list(sessions_single(M.ALPHABET, 2))
         rs = [(s, 1) for s in sessions_single(M.ALPHABET, 2 if thorough else 1)] + [(s, g) for s in sessions_single(M.REDUCED, 3 if thorough else 2) for g in (1, 2)]
-        rs += [(s, g) for s in rand[: (600 if thorough else 40)] for g in (1, 3)]
+        rs += [(s, g) for s in rand[: (300 if thorough else 40)] for g in (1, 3)]
         _W["sessions"], _W["random_sessions"] = exhaustive + doubles, rand
         _W["import_sessions"], _W["import_root"] = imp, os.path.join(scratch, "imp")
         _W["repl_sessions"] = rs
         os.makedirs(_W["import_root"])
         build_m1("hv_c37_m1")
         _W["m1"] = sys.modules["hv_c37_m1"]
-        pool = multiprocessing.get_context("fork").Pool(chk.jobs) if chk.jobs > 1 else None
+        pool = multiprocessing.get_context("fork").Pool(chk.jobs, initializer=_worker_init) if chk.jobs > 1 else None
         try:
             # ---- eval path ---------------------------------------------------------------------------------------------
             t = time.time()
             v_ex, v_rand = Verdicts(), Verdicts()
-            for part in pool_map(pool, chk, _eval_worker, len(_W["sessions"])):
+            for part in pool_map(pool, chk, _eval_worker_s, len(_W["sessions"])):
                 v_ex.merge(part)
-            for part in pool_map(pool, chk, _eval_random_worker, len(rand)):
+            for part in pool_map(pool, chk, _eval_random_worker_s, len(rand)):
                 v_rand.merge(part)
             for s in exhaustive + doubles + rand:
                 chk.case(("eval", session_key(s)))
@@ -884,7 +995,7 @@ def run(chk):
             # ---- importer path -----------------------------------------------------------------------------------------
             t = time.time()
             v_imp = Verdicts()
-            for part in pool_map(pool, chk, _import_worker, len(imp)):
+            for part in pool_map(pool, chk, _import_worker_s, len(imp)):
                 v_imp.merge(part)
             for s in imp:
                 chk.case(("import", session_key(s)))
@@ -895,7 +1006,7 @@ def run(chk):
             # ---- REPL path ---------------------------------------------------------------------------------------------
             t = time.time()
             v_repl = Verdicts()
-            for part in pool_map(pool, chk, _repl_worker, len(rs)):
+            for part in pool_map(pool, chk, _repl_worker_s, len(rs)):
                 v_repl.merge(part)
             for s, g in rs:
                 chk.case(("repl", g, session_key(s)))
@@ -914,7 +1025,8 @@ def run(chk):
         chk.canary("model: reader macros are visible from the start of their stream (hoisted definitions)",
                    any(nf for (_, _), (n, nf, _) in vc.agg.items()))
         vc = Verdicts()
-        for s in (((0, (("plain",), ("plain",))),), ((0, (("def", "a", "val"), ("use", "a"))),)):
+        # (a reader-macro name that no other session uses, so that the canary does not depend on what earlier sessions left)
+        for s in (((0, (("plain",), ("plain",))),), ((0, (("def", "hv-canary", "val"), ("use", "hv-canary"))),)):
             run_eval_session(s, vc, eager=True)
         chk.canary("laziness: a stream that is read completely before anything is compiled still satisfies the read-after-compile order",
                    any(nf for (c, _), (n, nf, _) in vc.agg.items() if "read only after" in c))
